@@ -466,7 +466,7 @@ func shortSite(s string) string {
 
 func (rc *RunCtx) confirm(set string, f *sym.Finding, path string) (bool, string) {
 	limit := 20 * time.Second
-	if f.Kind == "unwind" {
+	if f.Kind == "unwind" || f.Kind == "deadlock" {
 		limit = 4 * time.Second
 	}
 	if f.Kind == "race" {
@@ -499,7 +499,7 @@ func (rc *RunCtx) confirm(set string, f *sym.Finding, path string) (bool, string
 		if o.Panic != "" {
 			return true, ""
 		}
-	case "unwind":
+	case "unwind", "deadlock":
 		if o.TimedOut {
 			return true, ""
 		}
